@@ -474,12 +474,16 @@ func c16Lake(o Opts, rng *Rng, res *Result) error {
 // windows that straddle seek-index entries are then queried with pruning and
 // compared with the same filter over all loaded values.
 func c16Compacted(o Opts, rng *Rng, res *Result) error {
-	n := 4
+	n := 8
 	if o.Tier == "thorough" {
-		n = 80
+		n = 120
 	}
 	for it := 0; it < n; it++ {
 		desc := it%2 == 1
+		// layout of the loads: key-by-key interleaved over one common range, or
+		// windows of different widths and positions (nested, chained and disjoint
+		// overlaps: the object listed first need not hold the smallest or largest key)
+		windows := it%4 >= 2
 		stride := Pick(rng, []int{2, 8, 16, 40})
 		env, err := NewLakeEnv()
 		if err != nil {
@@ -493,10 +497,26 @@ func c16Compacted(o Opts, rng *Rng, res *Result) error {
 		nloads := 2 + rng.Intn(2)
 		per := 130 + rng.Intn(200)
 		base := 1000 + rng.Intn(50)
+		if windows {
+			nloads = 3 + rng.Intn(4)
+		}
 		for ld := 0; ld < nloads; ld++ {
 			var sb strings.Builder
-			for i := 0; i < per; i++ {
+			cnt, lo := per, 0
+			if windows {
+				span := per * nloads
+				cnt = 8 + rng.Intn(per)
+				lo = rng.Intn(span - cnt + 1)
+				if ld == 1 {
+					// reaches below and stays inside the upper part of an earlier window or not: random
+					lo = rng.Intn(span/4 + 1)
+				}
+			}
+			for i := 0; i < cnt; i++ {
 				k := base + i*nloads + ld // the loads interleave key by key
+				if windows {
+					k = base + lo + i
+				}
 				v := fmt.Sprintf("{k:%d,j:%d,id:%d}", k, i%3, it*100000+ld*10000+i)
 				if i%97 == 5 {
 					v = fmt.Sprintf("{k:null,j:%d,id:%d}", i%3, it*100000+ld*10000+i)
@@ -555,8 +575,8 @@ func c16Compacted(o Opts, rng *Rng, res *Result) error {
 			if strings.Join(g, "\n") != strings.Join(wv, "\n") {
 				res.Fail(Failure{
 					Kind: "oracle", Sig: "lake-pruned-differs:compacted-pool:window",
-					Detail:   fmt.Sprintf("pool(desc=%v stride=%d) made of %d interleaved loads of %d values, compacted into one run of objects; filter %q: pruned lake query returns %d values, the filter over all loaded values returns %d", desc, stride, nloads, per, src, len(g), len(wv)),
-					Replay:   map[string]any{"desc": desc, "stride": stride, "loads": nloads, "per_load": per, "first_key": base, "key_of_value_i_of_load_l": "first_key + i*loads + l (null when i%97==5)", "then": "compact all objects", "filter": src, "got": g, "want": wv},
+					Detail:   fmt.Sprintf("pool(desc=%v stride=%d) made of %d loads (windows=%v) of up to %d values, compacted into one run of objects; filter %q: pruned lake query returns %d values, the filter over all loaded values returns %d", desc, stride, nloads, windows, per, src, len(g), len(wv)),
+					Replay:   map[string]any{"desc": desc, "stride": stride, "windows": windows, "all_loaded_values": all, "loads": nloads, "per_load": per, "first_key": base, "key_of_value_i_of_load_l": "first_key + i*loads + l (null when i%97==5)", "then": "compact all objects", "filter": src, "got": g, "want": wv},
 					Expected: strings.Join(wv, " "), Observed: strings.Join(g, " "),
 				})
 			}
